@@ -244,6 +244,9 @@ func keyOf(in input) string {
 	if in.Src == "spec" {
 		return "spec-example:" + in.Name
 	}
+	if in.Src == "emph" {
+		return in.Name // emph:<text>
+	}
 	if strings.Contains(in.Text, "&quote;") {
 		return "entity:&quote;"
 	}
@@ -326,7 +329,19 @@ func run(c *lib.Ctx) error {
 			emu.Unlock()
 		})
 	}
+	var emphIns []input
+	var emphErr error
+	wg.Add(1)
+	go func() {
+		defer wg.Done()
+		slots <- struct{}{}
+		defer func() { <-slots }()
+		emphIns, emphErr = enumerateEmphasis(c, dir)
+	}()
 	wg.Wait()
+	if emphErr != nil {
+		return emphErr
+	}
 	for _, err := range errs {
 		if err != nil {
 			return err
@@ -393,7 +408,14 @@ func run(c *lib.Ctx) error {
 	}
 	c.Set("spec_examples", map[string]any{"total": len(specIns), "skipped": skipped})
 
+	for _, in := range emphIns {
+		allTexts = append(allTexts, in.Text)
+	}
+	ins = append(ins, emphIns...)
 	if err := agreement(c, dir, ins, stats); err != nil {
+		return err
+	}
+	if err := judgeEmphasisExamples(c, dir, specIns, stats); err != nil {
 		return err
 	}
 
